@@ -34,6 +34,9 @@ ENVC = {None: 0, "x": 1, "y": 2}
 ABS = {"k": "abs", "i": 0, "d": 0, "e": 0}
 FILES = {"i.txt": "i", "d.txt": "d"}
 CAP = 2
+# the functions whose commits are transactions of a job (everything else: hash jobs, start-up, watcher)
+JOB_FNS = {"pop_next_job", "_new_run", "_finalize_failed_run", "_reset_step_to_pending", "validate_dynamic_job", "try_skip_job",
+           "execute_job", "amend_step"}
 
 PROJECT = {
     "name": "job_model",
@@ -42,9 +45,12 @@ PROJECT = {
         "./plan.py": {
             "on": "plan.py",
             "versions": {"v1": [["static", ["i.txt", "d.txt"]],
-                                ["step", "S", {"inp": ["i.txt"], "env": ["VV_E"], "out": ["o.txt"]}]]},
+                                # (STEPUP_BUILD_LOG_LEVEL: a variable that the director itself hands to the commands;
+                                #  VV_F: a variable the command asks for while it runs; neither ever changes)
+                                ["step", "S", {"inp": ["i.txt"], "env": ["VV_E", "STEPUP_BUILD_LOG_LEVEL"], "out": ["o.txt"]}]]},
         },
-        "S": [["amend", {"inp": ["d.txt"]}], ["read", "d.txt"], ["read_declared"], ["getenv_declared"], ["write_declared"]],
+        "S": [["amend", {"inp": ["d.txt"], "env": ["VV_F"]}], ["read", "d.txt"], ["read_declared"], ["read_mode", "i.txt"],
+              ["getenv_declared"], ["write_declared"]],
     },
 }
 
@@ -66,8 +72,10 @@ def random_edits(rng, how, nuser):
             edits.append(["raw", "o.txt", f"user {nuser[0]}\n"])
         elif r < 0.90:
             edits.append(["del", "o.txt"])
-        elif r < 0.94:
+        elif r < 0.93:
             edits.append(["touch", "i.txt"])
+        elif r < 0.97:
+            edits.append(["chmod", "i.txt", rng.choice([0o755, 0o644])])
         elif how == "restart":
             edits.append(["env", "VV_E", rng.choice([None, "x", "y"])])
     return edits
@@ -127,8 +135,29 @@ def scripted_histories():
                         ph.update(cfg=cfg, seed=100 + 7 * k + j)
                     phases.append(ph)
                 res.append({"tid": f"jb-s{k}-{mode}{njob}", "phases": phases})
+    # only the permission bits of the input change
+    for k, (mode, njob) in enumerate([("restart", 1), ("watch", 1), ("watch", 2)]):
+        cfg = {"njob": njob, "defer_cap": CAP}
+        later = [[["chmod", "i.txt", 0o755]], [], [["chmod", "i.txt", 0o644]], [["chmod", "i.txt", 0o755], ["set", "d.txt", "b"]], [["touch", "i.txt"]]]
+        phases = [{"edits": [["set", "plan.py", "v1"], ["set", "i.txt", "a"], ["set", "d.txt", "a"]], "how": "restart", "fresh": True,
+                   "cfg": cfg, "seed": 61 + k}]
+        for j, edits in enumerate(later):
+            ph = {"edits": edits, "how": mode}
+            if mode == "restart":
+                ph.update(cfg=cfg, seed=400 + j)
+            phases.append(ph)
+        res.append({"tid": f"jb-m{k}", "phases": phases})
+    # the amended input is not there and the initial input changes while the command runs
+    for k, n in enumerate(range(5, 45, 2)):
+        cfg = {"njob": 1, "defer_cap": CAP, "keep_going": k % 2 == 1}
+        res.append({"tid": f"jb-u{k}", "phases": [
+            {"edits": [["set", "plan.py", "v1"], ["set", "i.txt", "a"], ["set", "d.txt", "a"]], "how": "restart", "fresh": True, "cfg": cfg, "seed": k},
+            {"edits": [["del", "d.txt"]], "how": "restart", "cfg": cfg, "seed": k + 20, "during": [[n, ["set", "i.txt", "b"]]]},
+            {"edits": [], "how": "restart", "cfg": cfg, "seed": k + 40},
+            {"edits": [["set", "d.txt", "b"]], "how": "restart", "cfg": cfg, "seed": k + 60}]})
     # the output is removed (PLANNED) or overwritten and then put back as the step wrote it: skipped, recorded again
-    gen = out_content("S", "o.txt", [f"d.txt={source_text('d.txt', 'a')}", f"i.txt={source_text('i.txt', 'a')}", "$VV_E=None"])
+    gen = out_content("S", "o.txt", [f"d.txt={source_text('d.txt', 'a')}", f"i.txt={source_text('i.txt', 'a')}", "i.txt:x=0", "$VV_E=None",
+                                     "$STEPUP_BUILD_LOG_LEVEL='WARNING'"])
     for k, (mode, njob) in enumerate([("restart", 1), ("watch", 1), ("watch", 2)]):
         cfg = {"njob": njob, "defer_cap": CAP}
         later = [[["del", "o.txt"]], [["raw", "o.txt", gen]], [["raw", "o.txt", "user 5\n"]], [["raw", "o.txt", gen], ["touch", "i.txt"]],
@@ -171,6 +200,7 @@ class Exporter:
         self.reads: dict[int, dict] = {}
         self.problems: list[str] = []
         self.keep_going = False
+        self.dirty = False  # somebody touched a file since StepUp last looked (start of the director / of the rebuild)
 
     def ocode(self, text):
         if text is None:
@@ -182,10 +212,11 @@ class Exporter:
             return self.omap[text]
         return {"k": "usr", "i": 900 + len(text) % 90, "d": 0, "e": 0}
 
-    def vcode(self, text):
+    def vcode(self, text, x=0):
+        """Content version and permission bit folded into one number (0: absent)."""
         if text is None or text == "NULL":
             return 0
-        return VIDX.get(version_of(text), 77)
+        return VIDX.get(version_of(text), 77) + (50 if x else 0)
 
     def edit(self, ed, world_read=None):
         kind = ed[0]
@@ -196,11 +227,16 @@ class Exporter:
         if path in FILES:
             f = FILES[path]
             if kind == "set":
-                self.disk[f] = VIDX[ed[2]]
+                self.disk[f] = VIDX[ed[2]]          # (a rewritten file gets the default permissions)
             elif kind == "del":
                 self.disk[f] = 0
+            elif kind == "touch" and self.disk[f]:
+                self.disk[f] = self.disk[f] % 50
+            elif kind == "chmod" and self.disk[f]:
+                self.disk[f] = self.disk[f] % 50 + (50 if ed[2] & 0o100 else 0)
             else:
                 return
+            self.dirty = True
             if self.started:
                 self.evs.append({"a": "edit", "f": f, "v": self.disk[f]})
         elif path == "o.txt":
@@ -210,6 +246,7 @@ class Exporter:
                 self.odisk = dict(ABS)
             else:
                 return
+            self.dirty = True
             if self.started:
                 self.evs.append({"a": "edito", "c": self.odisk})
 
@@ -226,7 +263,8 @@ class Exporter:
         return {
             "st": s["sstate"], "def": s["deferred"], "cnt": s["deferCount"], "has": s["hasStepHash"],
             "dyn": ["file:d.txt", "step:S", True] in st["deps"],
-            "ist": fi["fstate"], "ih": self.vcode(fi["fhash"]), "dst": fd["fstate"], "dh": self.vcode(fd["fhash"]),
+            "ist": fi["fstate"], "ih": self.vcode(fi["fhash"], fi["fmode"] & 0o100), "dst": fd["fstate"],
+            "dh": self.vcode(fd["fhash"], fd["fmode"] & 0o100),
             "ost": fo["fstate"], "oh": self.ocode(None if fo["fhash"] == "NULL" else fo["fhash"]),
             "envRec": ENVC.get(None if rec == "NULL" else rec[1:], 9),
         }
@@ -237,16 +275,21 @@ class Exporter:
             ev = e["ev"]
             if ev == "proc_start":
                 self.keep_going = bool(e["cfg"].get("keep_going"))
+                self.dirty = False
                 if self.started:
                     self.evs.append({"a": "proc", "env": ENVC[self.env]})
                 self.sjobs = set()
             elif ev == "ext_edit":
                 self.edit(e["edit"])
             elif ev == "phase_end":
+                # a build during which nobody touched anything: what is stored agrees with the tree
+                if self.started:
+                    self.evs.append({"a": "settled", "clean": not self.dirty})
                 # with --keep-going the scheduler is drained for one reason only: an input changed under a job
                 if self.started and self.keep_going:
                     self.evs.append({"a": "drain", "v": bool(e["draining"])})
             elif ev == "rebuild":
+                self.dirty = False
                 if self.started:
                     self.evs.append({"a": "phase"})
             elif ev == "pop":
@@ -261,11 +304,15 @@ class Exporter:
                     self.evs.append({"a": "hash"})
             elif ev == "read" and e.get("step") == "S":
                 self.reads.setdefault(e["job"], {})[e["path"]] = e["content"]
-                if self.started and e["content"] != "NULL" and e["path"] in FILES:
-                    self.evs.append({"a": "read", "f": FILES[e["path"]], "v": self.vcode(e["content"])})
+                if e["content"] != "NULL" and e["path"] in FILES:
+                    f = FILES[e["path"]]
+                    code = self.vcode(e["content"], self.disk[f] >= 50)
+                    self.reads[e["job"]][e["path"]] = code
+                    if self.started:
+                        self.evs.append({"a": "read", "f": f, "v": code})
             elif ev == "write" and e.get("step") == "S" and e.get("path") == "o.txt":
                 r = self.reads.get(e["job"], {})
-                self.omap[e["content"]] = {"k": "gen", "i": self.vcode(r.get("i.txt")), "d": self.vcode(r.get("d.txt")), "e": ENVC[self.env]}
+                self.omap[e["content"]] = {"k": "gen", "i": r.get("i.txt", 0), "d": r.get("d.txt", 0), "e": ENVC[self.env]}
                 self.odisk = self.omap[e["content"]]
                 if self.started:
                     self.evs.append({"a": "write", "o": self.odisk})
@@ -283,7 +330,7 @@ class Exporter:
                     self.started = True
                     self.evs.append({"a": "init", "di": self.disk["i"], "dd": self.disk["d"], "do": self.odisk, "env": ENVC[self.env], "p": p})
                 elif p != self.last_p:
-                    self.evs.append({"a": "obs", "fn": e.get("fn", ""), "p": p})
+                    self.evs.append({"a": "obs", "fn": e.get("fn", ""), "cls": "job" if e.get("fn") in JOB_FNS else "env", "p": p})
                 self.last_p = p
 
 
